@@ -8,6 +8,7 @@ import Pyunicorn.Lemmas.RelabelR4
 import Pyunicorn.Lemmas.RelabelRec4
 import Pyunicorn.Lemmas.RelabelAssort
 import Pyunicorn.Lemmas.RelabelR5
+import Pyunicorn.Lemmas.RelabelRec5
 import Mathlib.Algebra.BigOperators.Group.List.Basic
 import Mathlib.Data.List.Nodup
 /-!
@@ -780,6 +781,56 @@ theorem rec_intersystem_relabel {Nx Ny : Nat} {idy : Nat → Nat} (hx : IsPerm N
   ⟨joinPerm_isPerm hx hy, fun a b ha hb =>
     intersystem_relabel hx hy m ex ey hnx hny epsx epsy t mv M M' hM hM' a b ha hb⟩
 
+/-- **joint recurrence network at fixed recurrence rates, lag 0** (round 5; was oracle-only):
+`JointRecurrencePlot.set_fixed_recurrence_rate` thresholds each system's distance matrix at its own
+order statistic (`threshold_from_recurrence_rate`, C07's `fixedRate`) and multiplies,
+`JR = recurrence_x * recurrence_y`.  For two trajectories reordered by the same permutation the
+two constructions succeed or raise IndexError together (`none`), and the matrix of the reordered
+trajectories is the renumbered one. -/
+theorem rec_joint_rate_relabel (h : IsPerm n idx) (mx my : Metric) (ex ey : List (List V))
+    (hnx : ex.length = n) (hny : ey.length = n) (kx ky : Nat) (a b : Nat) (ha : a < n)
+    (hb : b < n) :
+    ((fixedRate (distRP mx (rows n idx ex)) kx).bind fun Rx =>
+      (fixedRate (distRP my (rows n idx ey)) ky).bind fun Ry =>
+        (hadamard Rx Ry).bind fun R => entry R a b)
+      = ((fixedRate (distRP mx ex) kx).bind fun Rx =>
+          (fixedRate (distRP my ey) ky).bind fun Ry =>
+            (hadamard Rx Ry).bind fun R => entry R (idx a) (idx b)) :=
+  joint_rate_relabel h mx my ex ey hnx hny kx ky a b ha hb
+
+/-- **inter-system recurrence network at fixed recurrence rates** (round 5; was oracle-only):
+`InterSystemRecurrenceNetwork.set_fixed_recurrence_rate` builds two `RecurrencePlot`s and one
+`CrossRecurrencePlot`, each thresholded at an order statistic of its own (for the cross plot: of
+the *rectangular* `Nx × Ny` cross-distance matrix, whose rows and columns are reordered by two
+different permutations), then assembles the blocks.  The cross-rate threshold does not depend on
+the order of either system (`tab_flatten_perm2`); each of the three plots succeeds or raises
+IndexError for both orders alike; and the assembled matrix of the reordered systems is the
+original one renumbered by `joinPerm`. -/
+theorem rec_intersystem_rate_relabel {Nx Ny : Nat} {idy : Nat → Nat} (hx : IsPerm Nx idx)
+    (hy : IsPerm Ny idy) (m : Metric) (ex ey : List (List V)) (hnx : ex.length = Nx)
+    (hny : ey.length = Ny) (kx ky kxy : Nat) :
+    quantileAt (distCRP m (rows Nx idx ex) (rows Ny idy ey)).flatten kxy
+      = quantileAt (distCRP m ex ey).flatten kxy ∧
+    (fixedRate (distRP m (rows Nx idx ex)) kx).isSome = (fixedRate (distRP m ex) kx).isSome ∧
+    (fixedRate (distRP m (rows Ny idy ey)) ky).isSome = (fixedRate (distRP m ey) ky).isSome ∧
+    (fixedRate (distCRP m (rows Nx idx ex) (rows Ny idy ey)) kxy).isSome
+      = (fixedRate (distCRP m ex ey) kxy).isSome ∧
+    ∀ Rx Ry CR Rx' Ry' CR' M M',
+      fixedRate (distRP m ex) kx = some Rx → fixedRate (distRP m ey) ky = some Ry →
+      fixedRate (distCRP m ex ey) kxy = some CR →
+      fixedRate (distRP m (rows Nx idx ex)) kx = some Rx' →
+      fixedRate (distRP m (rows Ny idy ey)) ky = some Ry' →
+      fixedRate (distCRP m (rows Nx idx ex) (rows Ny idy ey)) kxy = some CR' →
+      isrm Nx Ny Rx Ry CR = some M → isrm Nx Ny Rx' Ry' CR' = some M' →
+      ∀ a b, a < Nx + Ny → b < Nx + Ny →
+        entry M' a b = entry M (joinPerm Nx idx idy a) (joinPerm Nx idx idy b) :=
+  ⟨quantile_distCRP_relabel hx hy m ex ey hnx hny kxy,
+   fixedRate_isSome_relabel hx m ex hnx kx, fixedRate_isSome_relabel hy m ey hny ky,
+   fixedRate_cross_isSome_relabel hx hy m ex ey hnx hny kxy,
+   fun Rx Ry CR Rx' Ry' CR' M M' h1 h2 h3 h4 h5 h6 hM hM' a b ha hb =>
+    intersystem_rate_relabel hx hy m ex ey hnx hny kx ky kxy Rx Ry CR Rx' Ry' CR' M M'
+      h1 h2 h3 h4 h5 h6 hM hM' a b ha hb⟩
+
 /-! ### non-vacuity -/
 
 def exPerm : Nat → Nat := fun a => [2, 0, 3, 1].getD a a
@@ -832,6 +883,17 @@ example : IsPerm 3 (fun a => [2, 0, 1].getD a a) ∧
     rows 3 (fun a => [2, 0, 1].getD a a) ([[some 0], [some 1], [some 3]] : List (List V))
       = [[some 3], [some 0], [some 1]] := by
   refine ⟨by unfold IsPerm; decide, rfl, by decide⟩
+/-- the rate variants are not vacuous: a `3 × 3` distance matrix has order statistics `0..8`
+(`k = 9` raises IndexError), a `3 × 2` cross-distance matrix `0..5` -/
+example : (fixedRate (distRP .supremum ([[some 0], [some 1], [some 3]] : List (List V))) 4).isSome = true ∧
+    (fixedRate (distCRP .supremum ([[some 0], [some 1], [some 3]] : List (List V))
+      [[some 1], [some 2]]) 5).isSome = true ∧
+    (fixedRate (distRP .supremum ([[some 0], [some 1], [some 3]] : List (List V))) 9).isSome = false := by
+  refine ⟨?_, ?_, ?_⟩
+  · unfold fixedRate; rw [Option.isSome_map, quantileAt_isSome]; decide
+  · unfold fixedRate; rw [Option.isSome_map, quantileAt_isSome]; decide
+  · unfold fixedRate
+    rw [Option.isSome_map, Bool.eq_false_iff, ne_eq, quantileAt_isSome]; decide
 example : IsNetwork 3 (fun i j => i != j) (fun _ _ => 1) :=
   ⟨fun i j _ _ => by simp [bne_comm], fun _ _ _ _ => rfl, fun _ _ _ _ _ => by norm_num⟩
 
